@@ -1,5 +1,63 @@
-(* C04 — statements are added when proofs/TacticsFacts.v lands. *)
-From Coq Require Import List. Import ListNotations.
-Require Import Py Sem Term Poly Tactics.
-Example C04_model_runs : elim_vars_by_relaxing (fun _ => LpMiss) [] [] [] false [] = inl ([], []).
-Proof. vm_compute. reflexivity. Qed.
+(* C04 — variable elimination is implication-preserving for every tactic order.
+   Model: model/Tactics.v (_transform, _transform_term, tactics 1-5, Kaykobad / LP-active context
+   selection, exact Gauss-Jordan in place of sympy.solve), tied to the code by correspondence with
+   LP replay.  For every LP oracle meeting lp_spec 0 and EVERY tactic order.
+   Statements only; proofs in proofs/TacticsLin.v, proofs/TacticsFacts.v. *)
+From Coq Require Import List String Bool QArith Reals.
+Import ListNotations.
+Require Import Py ListsGen ConstGen Sem Term Poly Tactics PolySpec TermFacts PolyLP PolyFacts TacticsLin TacticsFacts.
+
+(* well-formed input: dict keys unique, no stored zero coefficient in the list being transformed,
+   no duplicate in the variables to eliminate, and the reserved name "_" (used internally by
+   tactic 3) occurs nowhere *)
+Theorem C04_refine : forall O, lp_spec 0 O -> forall order self ctx vs sp r st,
+  wf_input self ctx vs ->
+  elim_vars_by_refining O self ctx vs sp order = inl (r, st) ->
+  forall rho, sat_list rho ctx -> sat_list rho r -> sat_list rho self.
+Proof. exact C04_refine_all. Qed.
+Print Assumptions C04_refine.
+
+Theorem C04_relax : forall O, lp_spec 0 O -> forall order self ctx vs sp r st,
+  wf_input self ctx vs ->
+  elim_vars_by_relaxing O self ctx vs sp order = inl (r, st) ->
+  (forall rho, sat_list rho ctx -> sat_list rho self -> sat_list rho r) /\
+  (forall t v, In t r -> In v vs -> ~ In v (term_vars_p t)).
+Proof. exact C04_relax_all. Qed.
+Print Assumptions C04_relax.
+
+(* every tactic, whatever its number, either declines or returns an implication-preserving term *)
+Theorem C04_every_tactic : forall num, tactic_ok num.
+Proof. exact all_tactics_ok. Qed.
+Print Assumptions C04_every_tactic.
+
+(* the mathematical core of tactics 1 and 3 *)
+Theorem C04_kaykobad_cone : forall n a q w,
+  (forall j, (j < n)%nat -> (0 < q j)%R) ->
+  (forall i j, (i < n)%nat -> (j < n)%nat -> (0 <= a i j)%R) ->
+  (forall i, (i < n)%nat -> (0 < a i i)%R) ->
+  (forall j, (j < n)%nat -> (sumn n (fun i => off a q i j) < q j)%R) ->
+  (forall i, (i < n)%nat -> (sumn n (fun j => a i j * w j) <= 0)%R) ->
+  (sumn n (fun j => q j * w j) <= 0)%R.
+Proof. exact kaykobad_cone. Qed.
+Print Assumptions C04_kaykobad_cone.
+
+(* failures: ValueError (documented), or an escape whose kind and cause is pinned down *)
+Theorem C04_errors_total : forall O order self ctx vs sp e,
+  lp_total O -> (forall num, In num order -> in16 num) -> (ctx = [] \/ all_have_vars ctx = true) ->
+  elim_vars_by_refining O self ctx vs sp order = inr e \/ elim_vars_by_relaxing O self ctx vs sp order = inr e ->
+  e = ValueErr \/ ((e = Escape "IndexError" \/ e = Escape "fuel") /\ In 4%nat order).
+Proof. exact TacticsFacts.C04_errors_total. Qed.
+Print Assumptions C04_errors_total.
+
+(* the "_" precondition of tactic 3 is real (documented limit of the code, outside the property's inputs) *)
+Example C04_underscore_is_reserved :
+  exists self ctx r st rho,
+    Forall wft' self /\ Forall wft' ctx /\
+    elim_vars_by_refining noO self ctx ["y"%string] false [3%nat] = inl (r, st) /\
+    sat_list rho ctx /\ sat_list rho r /\ ~ sat_list rho self.
+Proof. exact tactic3_needs_fresh_underscore. Qed.
+
+(* non-vacuity: the docstring example, through the recursive branch of tactic 4 *)
+Example C04_nonvacuous :
+  elim_vars_by_refining noO [ex_t1] [ex_c2; ex_c3] ["y"; "z"]%string false [4%nat] = inl ([ex_x1], [(4%Z, 2%Z)]).
+Proof. exact ex_refine_tactic4_rec. Qed.
